@@ -1530,8 +1530,10 @@ struct Interp
         return "budget";
       int a = std::atoi(w[2].c_str());
       std::string strat = N(3) ? w[3] : "sum";
+      const bool acc = fl_acc(g->fl); // (read before the emission: the signal object may die in it)
       auto doit = [&]() -> std::string {
-        g_strategy = strat;
+        // a strategy given to a signal without accumulator is ignored (it must not reach a forwarded emission)
+        g_strategy = acc ? strat : "sum";
         std::string res = with_sig(*g, [&](auto& sig) -> std::string {
           using Sig = std::remove_reference_t<decltype(sig)>;
           // the two public spellings of an emission are exercised alternately: emit(a) and operator()(a)
